@@ -1,5 +1,6 @@
 import Cpl.Spec.Ring
 import Cpl.Lemmas.Evolve1D
+import Cpl.Properties.C01
 
 /-!
 # Invariants of the two 1D memoisers (`memoLoop`, `updateRec` / `stepRec`), used by C03 and C09.
@@ -8,4 +9,353 @@ import Cpl.Lemmas.Evolve1D
 namespace Cpl
 open Py
 
+section Values
+variable {σ α : Type}
+
+/-! ## Index arithmetic: `take(mode='wrap')` with a possibly negative start -/
+
+theorem wrapIdx_sub (N lo r i : Nat) (hr : r ≤ N) :
+    wrapIdx N ((lo : Int) - r + (i : Int)) = (lo + i + N - r) % N := by
+  unfold wrapIdx
+  have h : ((lo : Int) - r + (i : Int)) = ((lo + i + N - r : Nat) : Int) - (N : Int) := by omega
+  rw [h, Int.sub_emod_right]
+  rw [← Int.natCast_emod, Int.toNat_natCast]
+
+/-- The block key in `Nat` arithmetic. -/
+theorem wrapTake_eq [Inhabited α] (curr : List α) (lo r len : Nat) (hr : r ≤ curr.length) :
+    wrapTake curr ((lo : Int) - r) len
+      = (List.range len).map fun i => curr[(lo + i + curr.length - r) % curr.length]! := by
+  unfold wrapTake
+  apply List.map_congr_left
+  intro i _
+  rw [wrapIdx_sub _ _ _ _ hr]
+
+theorem wrapTake_length [Inhabited α] (curr : List α) (start : Int) (len : Nat) :
+    (wrapTake curr start len).length = len := by
+  simp [wrapTake]
+
+/-- The leaf key is the ring window. -/
+theorem wrapTake_leaf [Inhabited α] (curr : List α) (lo r : Nat) (hr : r ≤ curr.length) :
+    wrapTake curr ((lo : Int) - r) (1 + 2 * r) = Spec.window curr r lo := by
+  rw [wrapTake_eq _ _ _ _ hr]
+  have : 1 + 2 * r = 2 * r + 1 := by omega
+  rw [this]; rfl
+
+/-- The windows contained in a block key. -/
+def windowsOf (r : Nat) (key : List α) : List (List α) :=
+  (List.range (key.length - 2 * r)).map fun i => (key.drop i).take (2 * r + 1)
+
+theorem windowsOf_key [Inhabited α] (curr : List α) (lo r len : Nat) (hr : r ≤ curr.length) :
+    windowsOf r (wrapTake curr ((lo : Int) - r) (len + 2 * r))
+      = (List.range len).map fun i => Spec.window curr r (lo + i) := by
+  rw [wrapTake_eq _ _ _ _ hr]
+  simp only [windowsOf, List.length_map, List.length_range]
+  have : len + 2 * r - 2 * r = len := by omega
+  rw [this]
+  apply List.map_congr_left
+  intro i hi
+  simp at hi
+  apply List.ext_getElem
+  · simp [Spec.window]; omega
+  · intro n h1 h2
+    simp [Spec.window] at h1 h2 ⊢
+    have e : lo + i + n + curr.length - r = lo + (i + n) + curr.length - r := by omega
+    rw [e]
+
+/-! ## `setMany` -/
+
+theorem setMany_length [Inhabited α] (next : List α) (lo : Nat) (vals : List α) :
+    (setMany next lo vals).length = next.length := by
+  simp [setMany]
+
+theorem setMany_get [Inhabited α] (next : List α) (lo : Nat) (vals : List α) (i : Nat)
+    (hi : i < next.length) :
+    (setMany next lo vals)[i]! = if lo ≤ i ∧ i < lo + vals.length then vals[i - lo]! else next[i]! := by
+  simp [setMany, hi]
+
+/-! ## Plain loop -/
+
+theorem plainLoop_fst (rule : Rule1 σ α) (f : List α → α) (hp : PureVal rule f) (t : Nat) :
+    ∀ (ns : List (List α)) (c : Nat) (s : σ), (plainLoop rule t ns c s).1 = ns.map f := by
+  intro ns
+  induction ns with
+  | nil => intro c s; rfl
+  | cons n rest ih =>
+    intro c s
+    simp only [plainLoop, List.map_cons]
+    rw [ih, ← hp s n c t]
+
+/-! ## Memo table -/
+
+def TableOK (f : List α → α) (tbl : MemoTable α) : Prop := ∀ n v, (n, v) ∈ tbl → v = f n
+
+theorem TableOK_nil (f : List α → α) : TableOK f ([] : MemoTable α) := by
+  intro n v h; cases h
+
+theorem lookup_mem [DecidableEq α] {β : Type} (tbl : List (List α × β)) (n : List α) (v : β)
+    (h : tbl.lookup n = some v) : (n, v) ∈ tbl := by
+  obtain ⟨l1, l2, rfl, _⟩ := List.lookup_eq_some_iff.mp h
+  simp
+
+theorem getMemoized_ok [DecidableEq α] (rule : Rule1 σ α) (f : List α → α) (hp : PureVal rule f)
+    (n : List α) (c t : Nat) (tbl : MemoTable α) (s : σ) (ht : TableOK f tbl) :
+    (getMemoized rule n c t tbl s).1 = f n ∧ TableOK f (getMemoized rule n c t tbl s).2.1 := by
+  unfold getMemoized
+  split
+  · rename_i v hv
+    exact ⟨ht _ _ (lookup_mem _ _ _ hv), ht⟩
+  · refine ⟨hp s n c t, ?_⟩
+    intro n' v' hm
+    simp only [List.mem_cons, Prod.mk.injEq] at hm
+    rcases hm with ⟨rfl, rfl⟩ | hm
+    · exact hp s n' c t
+    · exact ht _ _ hm
+
+theorem memoLoop_ok [DecidableEq α] (rule : Rule1 σ α) (f : List α → α) (hp : PureVal rule f) (t : Nat) :
+    ∀ (ns : List (List α)) (c : Nat) (tbl : MemoTable α) (s : σ), TableOK f tbl →
+      (memoLoop rule t ns c tbl s).1 = ns.map f ∧ TableOK f (memoLoop rule t ns c tbl s).2.1 := by
+  intro ns
+  induction ns with
+  | nil => intro c tbl s ht; exact ⟨rfl, ht⟩
+  | cons n rest ih =>
+    intro c tbl s ht
+    obtain ⟨g1, g2⟩ := getMemoized_ok rule f hp n c t tbl s ht
+    obtain ⟨i1, i2⟩ := ih (c + 1) _ (getMemoized rule n c t tbl s).2.2 g2
+    simp only [memoLoop, List.map_cons]
+    exact ⟨by rw [i1, g1], i2⟩
+
+/-! ## Recursive memoiser: values -/
+
+def CacheOK (f : List α → α) (r : Nat) (cache : RecCache α) : Prop :=
+  ∀ key vals, (key, vals) ∈ cache → vals = (windowsOf r key).map f
+
+theorem CacheOK_nil (f : List α → α) (r : Nat) : CacheOK f r ([] : RecCache α) := by
+  intro k v h; cases h
+
+theorem updateRec_correct [DecidableEq α] [Inhabited α] (rule : Rule1 σ α) (f : List α → α)
+    (hp : PureVal rule f) (r : Nat) (curr : List α) (t : Nat) (hr : r ≤ curr.length) :
+    ∀ (len lo : Nat) (st : RecSt σ α), 0 < len → lo + len ≤ curr.length →
+      st.next.length = curr.length → CacheOK f r st.cache →
+      (updateRec rule r curr t len lo st).next.length = curr.length ∧
+      CacheOK f r (updateRec rule r curr t len lo st).cache ∧
+      (∀ i, lo ≤ i → i < lo + len →
+        (updateRec rule r curr t len lo st).next[i]! = f (Spec.window curr r i)) ∧
+      (∀ i, i < curr.length → (i < lo ∨ lo + len ≤ i) →
+        (updateRec rule r curr t len lo st).next[i]! = st.next[i]!) := by
+  intro len
+  induction len using Nat.strongRecOn with
+  | _ len ih =>
+    intro lo st hlen hb hnext hc
+    rw [updateRec]
+    simp only
+    split
+    · -- cache hit
+      rename_i vals hlk
+      have hv := hc _ _ (lookup_mem _ _ _ hlk)
+      rw [windowsOf_key _ _ _ _ hr] at hv
+      have hvl : vals.length = len := by simp [hv]
+      refine ⟨by simp [setMany_length, hnext], hc, ?_, ?_⟩
+      · intro i h1 h2
+        simp only
+        rw [setMany_get _ _ _ _ (by omega)]
+        simp only [hvl, h1, h2, and_self, if_true]
+        subst hv
+        simp only [List.getElem!_eq_getElem?_getD, List.getElem?_map]
+        rw [List.getElem?_range (by omega)]
+        simp only [Option.map_some, Option.getD_some]
+        congr 2; omega
+      · intro i h1 h2
+        simp only
+        rw [setMany_get _ _ _ _ (by omega)]
+        rw [hvl, if_neg (by omega)]
+    · -- miss
+      rename_i hlk
+      by_cases h1 : len > 1
+      · simp only [h1, dite_true]
+        have hm1 : 0 < len / 2 := by omega
+        have hm2 : len / 2 < len := by omega
+        obtain ⟨a1, a2, a3, a4⟩ := ih (len / 2) hm2 lo st hm1 (by omega) hnext hc
+        generalize updateRec rule r curr t (len / 2) lo st = s1 at a1 a2 a3 a4
+        obtain ⟨b1, b2, b3, b4⟩ :=
+          ih (len - len / 2) (by omega) (lo + len / 2) s1 (by omega) (by omega) a1 a2
+        generalize updateRec rule r curr t (len - len / 2) (lo + len / 2) s1 = s2 at b1 b2 b3 b4
+        have hall : ∀ i, lo ≤ i → i < lo + len → s2.next[i]! = f (Spec.window curr r i) := by
+          intro i h2 h3
+          by_cases h4 : i < lo + len / 2
+          · rw [b4 i (by omega) (Or.inl h4)]; exact a3 i h2 h4
+          · exact b3 i (by omega) (by omega)
+        refine ⟨b1, ?_, hall, ?_⟩
+        · intro key vals hm
+          simp only [List.mem_cons, Prod.mk.injEq] at hm
+          rcases hm with ⟨rfl, rfl⟩ | hm
+          · rw [windowsOf_key _ _ _ _ hr, List.map_map]
+            apply List.map_congr_left
+            intro i hi; simp at hi
+            exact hall (lo + i) (by omega) (by omega)
+          · exact b2 _ _ hm
+        · intro i h2 h3
+          rw [b4 i h2 (by omega), a4 i h2 (by omega)]
+      · have hl : len = 1 := by omega
+        subst hl
+        simp only [h1, dite_false]
+        have hkey : wrapTake curr ((lo : Int) - r) (1 + 2 * r) = Spec.window curr r lo :=
+          wrapTake_leaf _ _ _ hr
+        have hval : (rule st.s (wrapTake curr ((lo : Int) - r) (1 + 2 * r)) lo t).1
+            = f (Spec.window curr r lo) := by rw [hp, hkey]
+        have hall : ∀ i, lo ≤ i → i < lo + 1 →
+            (setMany st.next lo [(rule st.s (wrapTake curr ((lo : Int) - r) (1 + 2 * r)) lo t).1])[i]!
+              = f (Spec.window curr r i) := by
+          intro i h2 h3
+          have : i = lo := by omega
+          subst this
+          rw [setMany_get _ _ _ _ (by omega)]
+          simp [hval]
+        refine ⟨by simp [setMany_length, hnext], ?_, hall, ?_⟩
+        · intro key vals hm
+          simp only [List.mem_cons, Prod.mk.injEq] at hm
+          rcases hm with ⟨rfl, rfl⟩ | hm
+          · rw [windowsOf_key _ _ _ _ hr]
+            have := hall lo (by omega) (by omega)
+            simp only [List.range_one, List.map_cons, List.map_nil, Nat.add_zero]
+            rw [this]
+          · exact hc _ _ hm
+        · intro i h2 h3
+          rw [setMany_get _ _ _ _ (by omega)]
+          rw [if_neg (by simp only [List.length_singleton]; omega)]
+
+theorem pureStep_length [Inhabited α] (f : List α → α) (r : Nat) (cells : List α) :
+    (Spec.pureStep f r cells).length = cells.length := by
+  simp [Spec.pureStep]
+
+theorem eq_pureStep [Inhabited α] (f : List α → α) (r : Nat) (cells next : List α)
+    (hl : next.length = cells.length)
+    (hv : ∀ i, i < cells.length → next[i]! = f (Spec.window cells r i)) :
+    next = Spec.pureStep f r cells := by
+  apply List.ext_getElem
+  · rw [hl, pureStep_length]
+  · intro i h1 h2
+    have := hv i (by omega)
+    simp only [List.getElem!_eq_getElem?_getD, List.getElem?_eq_getElem h1, Option.getD_some] at this
+    simp [Spec.pureStep, this]
+
+theorem stepRec_correct [DecidableEq α] [Inhabited α] (rule : Rule1 σ α) (f : List α → α)
+    (hp : PureVal rule f) (r : Nat) (curr : List α) (t : Nat) (h1 : 1 ≤ r) (hr : r ≤ curr.length)
+    (cache : RecCache α) (s : σ) (hc : CacheOK f r cache) :
+    (stepRec rule r curr t cache s).next = Spec.pureStep f r curr ∧
+    CacheOK f r (stepRec rule r curr t cache s).cache := by
+  unfold stepRec
+  simp only
+  have hN : 0 < curr.length := by omega
+  have h2 : curr.length - curr.length / 2 > 0 := by omega
+  rw [if_pos h2]
+  by_cases hm : curr.length / 2 > 0
+  · rw [if_pos hm]
+    obtain ⟨a1, a2, a3, a4⟩ := updateRec_correct rule f hp r curr t hr (curr.length / 2) 0
+      ⟨List.replicate curr.length default, cache, s⟩ hm (by omega) (by simp) hc
+    generalize updateRec rule r curr t (curr.length / 2) 0
+      ⟨List.replicate curr.length default, cache, s⟩ = s1 at a1 a2 a3 a4
+    obtain ⟨b1, b2, b3, b4⟩ := updateRec_correct rule f hp r curr t hr
+      (curr.length - curr.length / 2) (curr.length / 2) s1 h2 (by omega) a1 a2
+    refine ⟨eq_pureStep f r curr _ b1 ?_, b2⟩
+    intro i hi
+    by_cases h4 : i < curr.length / 2
+    · rw [b4 i hi (Or.inl h4)]; exact a3 i (by omega) (by omega)
+    · exact b3 i (by omega) (by omega)
+  · rw [if_neg hm]
+    have h0 : curr.length / 2 = 0 := by omega
+    obtain ⟨b1, b2, b3, b4⟩ := updateRec_correct rule f hp r curr t hr
+      (curr.length - curr.length / 2) (curr.length / 2)
+      ⟨List.replicate curr.length default, cache, s⟩ h2 (by omega) (by simp) hc
+    refine ⟨eq_pureStep f r curr _ b1 ?_, b2⟩
+    intro i hi
+    exact b3 i (by omega) (by omega)
+
+/-! ## One step / many steps in any supported mode -/
+
+def CachesOK (f : List α → α) (r : Nat) (cs : Caches α) : Prop := TableOK f cs.tbl ∧ CacheOK f r cs.rc
+
+theorem CachesOK_empty (f : List α → α) (r : Nat) : CachesOK f r (Caches.empty : Caches α) :=
+  ⟨TableOK_nil f, CacheOK_nil f r⟩
+
+theorem neighbourhoods_map [Inhabited α] (f : List α → α) (cells : List α) (r : Nat) (h1 : 1 ≤ r)
+    (h2 : r ≤ cells.length) : (neighbourhoods cells r).map f = Spec.pureStep f r cells := by
+  rw [C01.neighbourhoods_eq_windows cells r h1 h2, List.map_map]; rfl
+
+theorem step1_pure [DecidableEq α] [Inhabited α] (rule : Rule1 σ α) (f : List α → α)
+    (hp : PureVal rule f) (mode : Mode) (hm : mode ≠ .bad) (r : Nat) (cells : List α) (t : Nat)
+    (cs : Caches α) (s : σ) (h1 : 1 ≤ r) (h2 : r ≤ cells.length) (hc : CachesOK f r cs) :
+    (step1 mode rule r cells t cs s).1 = Spec.pureStep f r cells ∧
+    CachesOK f r (step1 mode rule r cells t cs s).2.1 := by
+  cases mode with
+  | bad => exact absurd rfl hm
+  | plain =>
+    simp only [step1]
+    exact ⟨by rw [plainLoop_fst rule f hp, neighbourhoods_map f cells r h1 h2], hc⟩
+  | memo =>
+    simp only [step1]
+    obtain ⟨m1, m2⟩ := memoLoop_ok rule f hp t (neighbourhoods cells r) 0 cs.tbl s hc.1
+    exact ⟨by rw [m1, neighbourhoods_map f cells r h1 h2], m2, hc.2⟩
+  | recursive =>
+    simp only [step1]
+    obtain ⟨m1, m2⟩ := stepRec_correct rule f hp r cells t h1 h2 cs.rc s hc.2
+    exact ⟨m1, hc.1, m2⟩
+
+theorem step1_plain_fst [DecidableEq α] [Inhabited α] (rule : Rule1 σ α) (f : List α → α)
+    (hp : PureVal rule f) (r : Nat) (cells : List α) (t : Nat)
+    (cs : Caches α) (s : σ) (h1 : 1 ≤ r) (h2 : r ≤ cells.length) :
+    (step1 .plain rule r cells t cs s).1 = Spec.pureStep f r cells := by
+  simp only [step1]
+  rw [plainLoop_fst rule f hp, neighbourhoods_map f cells r h1 h2]
+
+theorem fixedLoop_pure [DecidableEq α] [Inhabited α] (rule : Rule1 σ α) (f : List α → α)
+    (hp : PureVal rule f) (mode : Mode) (hm : mode ≠ .bad) (r : Nat) (h1 : 1 ≤ r) :
+    ∀ (k t : Nat) (cells : List α) (cs : Caches α) (s : σ), r ≤ cells.length → CachesOK f r cs →
+      (fixedLoop mode rule r k t cells cs s).1 = Spec.pureRun f r k cells := by
+  intro k
+  induction k with
+  | zero => intro t cells cs s _ _; rfl
+  | succ k ih =>
+    intro t cells cs s h2 hc
+    obtain ⟨e1, e2⟩ := step1_pure rule f hp mode hm r cells t cs s h1 h2 hc
+    simp only [fixedLoop, Spec.pureRun]
+    rw [ih (t + 1) _ _ _ (by rw [e1, pureStep_length]; exact h2) e2, e1]
+
+theorem evolveFixed_eq [DecidableEq α] [Inhabited α] (rule : Rule1 σ α) (mode : Mode)
+    (hm : mode ≠ .bad) (hist : List (List α)) (init : List α) (hlast : hist.getLast? = some init)
+    (T : Nat) (hT : 1 ≤ T) (r : Nat) (s : σ) :
+    evolveFixed hist T rule r mode s
+      = .ok (hist ++ (fixedLoop mode rule r (T - 1) 1 init Caches.empty s).1,
+             (fixedLoop mode rule r (T - 1) 1 init Caches.empty s).2.2) := by
+  unfold evolveFixed
+  rw [hlast]
+  simp only
+  rw [if_neg (by omega), if_neg (by simp [hm])]
+
+/-- Lock step of the dynamic loop in a memoised mode and in plain mode (rows only). -/
+theorem dynLoop_mode_indep [DecidableEq α] [Inhabited α] (rule : Rule1 σ α) (f : List α → α)
+    (hp : PureVal rule f) (mode : Mode) (hm : mode ≠ .bad) (r : Nat) (h1 : 1 ≤ r)
+    (pred : List (List α) → Nat → Bool) :
+    ∀ (fuel t : Nat) (acc : List (List α)) (cells : List α) (cs cs' : Caches α) (s s' : σ),
+      r ≤ cells.length → CachesOK f r cs →
+      (dynLoop mode rule r pred fuel t acc cells cs s).map (·.map Prod.fst)
+        = (dynLoop .plain rule r pred fuel t acc cells cs' s').map (·.map Prod.fst) := by
+  intro fuel
+  induction fuel with
+  | zero => intros; rfl
+  | succ fuel ih =>
+    intro t acc cells cs cs' s s' h2 hc
+    simp only [dynLoop]
+    by_cases hpred : pred acc t = true
+    · rw [if_pos hpred, if_pos hpred, if_neg hm, if_neg (by decide)]
+      obtain ⟨e1, e2⟩ := step1_pure rule f hp mode hm r cells t cs s h1 h2 hc
+      have p1 := step1_plain_fst rule f hp r cells t cs' s' h1 h2
+      rw [p1]
+      have := ih (t + 1) (acc ++ [(step1 mode rule r cells t cs s).fst])
+        (step1 mode rule r cells t cs s).fst (step1 mode rule r cells t cs s).2.fst
+        (step1 Mode.plain rule r cells t cs' s').2.fst (step1 mode rule r cells t cs s).2.snd
+        (step1 Mode.plain rule r cells t cs' s').2.snd (by rw [e1, pureStep_length]; exact h2) e2
+      rw [this, e1]
+    · rw [if_neg hpred, if_neg hpred]; rfl
+
+end Values
 end Cpl
